@@ -1005,6 +1005,59 @@ static int s_tls13_gcm(int v, uint8_t *o, size_t *ol)
 }
 enum { NV_TLS13_GCM = 3 };
 
+// ---- records protected by a peer that holds the keys: the input is the INNER plaintext, protected here with the raw primitives -----------------
+// tls13_inner: data = TLSInnerPlaintext (content || type || zero padding, or anything else) -> AES/SM4-GCM with the TLS 1.3 nonce and header -> library opens it
+static int t_tls13_inner(const uint8_t *in, size_t n)
+{
+	if (n > 16384 + 256) return -2;
+	uint8_t nonce[12], aad[5]; size_t clen = n + 16; uint8_t *ct = xa(clen);
+	nonce[0] = nonce[1] = nonce[2] = nonce[3] = 0; memcpy(nonce + 4, SEQ, 8); for (int i = 0; i < 12; i++) nonce[i] ^= IV12[i];
+	aad[0] = TLS_record_application_data; aad[1] = 3; aad[2] = 3; aad[3] = (uint8_t)(clen >> 8); aad[4] = (uint8_t)clen;
+	uint8_t *pt = xa(n); memcpy(pt, in, n);
+	if (gcm_encrypt(&bck, nonce, 12, aad, 5, pt, n, ct, 16, ct + n) != 1) return -3;
+	uint8_t *out = xa(clen); size_t ol = 0; int rt = 0, rc = C(tls13_gcm_decrypt(&bck, IV12, SEQ, ct, clen, &rt, out, &ol));
+	uint8_t *rec = xa(5 + clen); memcpy(rec, aad, 5); memcpy(rec + 5, ct, clen);
+	uint8_t *o2 = xa(5 + clen); size_t l2 = 0; int r = C(tls13_record_decrypt(&bck, IV12, SEQ, rec, 5 + clen, o2, &l2)); rc = best(rc, r);
+	return rc;
+}
+static int s_tls13_inner(int v, uint8_t *o, size_t *ol)
+{
+	memset(o, 0, 64);
+	switch (v) {
+	case 0: memcpy(o, CONTENT, 40); o[40] = TLS_record_application_data; *ol = 48; break;      // content, type, 7 bytes of padding
+	case 1: *ol = 16; break;                                                                   // nothing but zeros: no content type at all
+	case 2: *ol = 0; break;                                                                    // empty inner plaintext
+	case 3: *ol = 1; break;                                                                    // a single zero
+	case 4: o[0] = TLS_record_alert; *ol = 1; break;                                           // a type and no content
+	default: o[0] = 2; o[1] = 40; o[2] = TLS_record_handshake; *ol = 3; break;
+	}
+	return 1;
+}
+enum { NV_TLS13_INNER = 6 };
+// tls_cbc_inner: data = the block-aligned bytes under the CBC encryption (content || MAC || padding as the peer chose them) -> SM4-CBC with an explicit IV -> library opens it
+static int t_tls_cbc_inner(const uint8_t *in, size_t n)
+{
+	if (n == 0 || n % 16 || n > 16384 + 512) return -2;
+	uint8_t iv[16]; memset(iv, 0x5a, 16); uint8_t *frag = xa(16 + n); memcpy(frag, iv, 16);
+	uint8_t civ[16]; memcpy(civ, iv, 16); uint8_t *pt = xa(n); memcpy(pt, in, n);
+	sm4_cbc_encrypt_blocks(&sm4enc, civ, pt, n / 16, frag + 16);
+	uint8_t hdr[5] = { TLS_record_application_data, 1, 1, (uint8_t)((16 + n) >> 8), (uint8_t)(16 + n) };
+	uint8_t *out = xa(16 + n); size_t ol = 0;
+	return C(tls_cbc_decrypt(&hmac0, &sm4dec, SEQ, hdr, frag, 16 + n, out, &ol));
+}
+static int s_tls_cbc_inner(int v, uint8_t *o, size_t *ol)
+{
+	// a genuine protected fragment, opened with the raw cipher: content || HMAC || padding
+	uint8_t hdr[5] = { TLS_record_application_data, 1, 1, 0, 0 }, enc[512]; size_t el = 0, len = v == 0 ? 40 : (v == 1 ? 0 : 200);
+	hdr[3] = (uint8_t)(len >> 8); hdr[4] = (uint8_t)len;
+	uint8_t data[256]; for (size_t i = 0; i < len; i++) data[i] = CONTENT[i % 40];
+	if (tls_cbc_encrypt(&hmac0, &sm4enc, SEQ, hdr, data, len, enc, &el) != 1) return -1;
+	uint8_t civ[16]; memcpy(civ, enc, 16);
+	sm4_cbc_decrypt_blocks(&sm4dec, civ, enc + 16, (el - 16) / 16, o); *ol = el - 16;
+	return 1;
+}
+enum { NV_TLS_CBC_INNER = 3 };
+
 // =====================================================================================================================
 int main(int argc, char **argv)
 {
@@ -1026,7 +1079,7 @@ int main(int argc, char **argv)
 			SAMPLE("pkcs8", s_pkcs8, NV_PKCS8) SAMPLE("pem", s_pem, NV_PEM) SAMPLE("base64", s_base64, NV_BASE64) SAMPLE("hex", s_hex, NV_HEX) SAMPLE("sm2_sig", s_sm2_sig, NV_SM2_SIG)
 			SAMPLE("sm2_ct", s_sm2_ct, NV_SM2_CT) SAMPLE("sm2_point", s_sm2_point, NV_SM2_POINT) SAMPLE("sm9_sig", s_sm9_sig, NV_SM9_SIG) SAMPLE("sm9_ct", s_sm9_ct, NV_SM9_CT)
 			SAMPLE("sm9_key", s_sm9_key, NV_SM9_KEY) SAMPLE("tls_record", s_tls_record, NV_TLS_RECORD) SAMPLE("tls_cbc", s_tls_cbc, NV_TLS_CBC) SAMPLE("tls13_gcm", s_tls13_gcm, NV_TLS13_GCM)
-			SAMPLE("http", s_http, NV_HTTP)
+			SAMPLE("http", s_http, NV_HTTP) SAMPLE("tls13_inner", s_tls13_inner, NV_TLS13_INNER) SAMPLE("tls_cbc_inner", s_tls_cbc_inner, NV_TLS_CBC_INNER)
 			vt_begin("F"); vt_int("id", id); vt_str("target", t); vt_int("rc", rc); vt_hex("sample", sbuf, rc == 1 ? sl : 0); vt_int("variant", variant); vt_int("nvariants", nv); vt_end();
 		} else {
 			size_t n, auxl; uint8_t *in = kv_hex(&kv, "data", &n), *aux = kv_hex(&kv, "aux", &auxl); int rc = -99;
@@ -1052,6 +1105,8 @@ int main(int argc, char **argv)
 			else if (!strcmp(t, "tls_cbc")) rc = t_tls_cbc(in, n, aux, auxl);
 			else if (!strcmp(t, "tls13_gcm")) rc = t_tls13_gcm(in, n);
 			else if (!strcmp(t, "http")) rc = t_http(in, n);
+			else if (!strcmp(t, "tls13_inner")) rc = t_tls13_inner(in, n);
+			else if (!strcmp(t, "tls_cbc_inner")) rc = t_tls_cbc_inner(in, n);
 			vt_begin("F"); vt_int("id", id); vt_str("target", t); vt_int("rc", rc); vt_int("n", ncalls); vt_end();
 			xclose_all(); xfree_all(); free(n ? in : in - 1); free(auxl ? aux : aux - 1);
 		}
